@@ -1,10 +1,15 @@
 (** Property C01: parsing is total.  Only pinned statements; proofs live in ParseProofs/
     (Invariant.v: the token loop of one level; Totality.v: recursion over the command tree;
     ValidateTotal.v: the validator; TotalityMain.v: assembly). *)
+From Coq Require Import String.   (* first, so that List's names (length, ++) stay the visible ones *)
 From ClapModel Require Import Base.Bytes Base.Machine Base.Utf8.
 From ClapModel Require Import Parse.Cmd Parse.Build Parse.Valid Parse.Matcher Parse.Errors Parse.Validator Parse.Parser.
 From ClapModel Require Import ParseProofs.Safe ParseProofs.Invariant ParseProofs.Totality
-                              ParseProofs.ValidateTotal ParseProofs.Relations ParseProofs.TotalityMain.
+                              ParseProofs.ValidateTotal ParseProofs.Relations ParseProofs.TotalityMain
+                              ParseProofs.Sites ParseProofs.SitesComplete ParseProofs.FlagSubClass.
+From ClapModel Require Import Errors.RenderModel Errors.RenderLink.
+From ClapModel Require Gen.ErrorCtx.
+From ClapModel Require Gen.ParseSites.
 From Coq Require Import ZArith.
 From RecordUpdate Require Import RecordSet.
 Import RecordSetNotations.
@@ -88,3 +93,143 @@ Proof.
   intros [b|]; vm_compute; reflexivity.
 Qed.
 Print Assumptions C01_hypotheses_satisfiable.
+
+(** ---------- round 2 (1): the panic sites of the parse path, tied to the Rust source ----------
+    [Gen.ParseSites.parse_sites] is regenerated from /repo on every run (translators/parse_sites.py: every
+    unwrap() / expect( / unreachable! / panic! / (debug_)assert*! / index expression / binary minus / assert_app( of
+    parser.rs, arg_matcher.rs, matched_arg.rs, validator.rs and the parse-reachable functions of command.rs, keyed
+    by (file, enclosing fn, kind, ordinal within the fn)).  The model-side table [model_site_table] (ParseProofs/Sites.v)
+    has one row per source site, in source order: a new panic site on the parse path breaks this theorem. *)
+Theorem C01_sites_match : map fst model_site_table = Gen.ParseSites.parse_sites.
+Proof. exact sites_match. Qed.
+Print Assumptions C01_sites_match.
+
+(** every row [Modelled l]: each number in [l] is an [RPanic]/[VPanic] site of the model and is never the
+    outcome of parsing, for every plain valid definition and every token list *)
+Theorem C01_sites_dead : forall c0 toks, plain c0 = true -> valid c0 = true ->
+  forall n, In n modelled_sites -> do_parse c0 toks <> OPanicked n.
+Proof. exact sites_dead. Qed.
+Print Assumptions C01_sites_dead.
+
+(** every row [Proved P why]: the statement [P] (about the model, for ALL commands and inputs) that makes the
+    site dead holds *)
+Theorem C01_sites_proved : forall k P w, In (k, Proved P w) model_site_table -> P.
+Proof. exact sites_proved. Qed.
+Print Assumptions C01_sites_proved.
+
+(** the rows that are neither: justified by reasoning local to the Rust function (string in the table).  Their
+    keys are pinned here, so that classifying a new site as "reasoned" is a visible, deliberate change. *)
+Theorem C01_sites_reasoned_rows :
+  map fst (filter (fun p => match snd p with Reasoned _ => true | _ => false end) model_site_table)
+  = [ ("parser/parser.rs", "Parser::parse", "unreachable!", 0);
+      ("parser/parser.rs", "Parser::parse", "unreachable!", 4);
+      ("parser/parser.rs", "Parser::parse", "debug_assert_eq!", 0);
+      ("parser/parser.rs", "Parser::did_you_mean_error", "index", 0);
+      ("parser/arg_matcher.rs", "ArgMatcher::start_custom_arg", "debug_assert_eq!", 0);
+      ("parser/arg_matcher.rs", "ArgMatcher::start_custom_group", "debug_assert_eq!", 0);
+      ("parser/arg_matcher.rs", "ArgMatcher::start_occurrence_of_external", "debug_assert_eq!", 0);
+      ("parser/arg_matcher.rs", "ArgMatcher::start_occurrence_of_external", "expect", 0);
+      ("parser/matches/matched_arg.rs", "MatchedArg::new_external", "expect", 0);
+      ("parser/validator.rs", "Validator::missing_required_error", "debug_assert!", 0);
+      ("builder/command.rs", "Command::_build_subcommand", "unwrap", 0);
+      ("builder/command.rs", "Command::_build_subcommand", "unwrap", 1);
+      ("builder/command.rs", "Command::format_group", "unwrap", 0) ]%string.
+Proof. exact sites_reasoned_rows. Qed.
+Print Assumptions C01_sites_reasoned_rows.
+
+(** the converse: the table knows every panic site of the MODEL.  For EVERY definition (valid or not, any class)
+    and every token list, a panic outcome of the model carries a number of a [Modelled] row or of
+    [callee_sites] (callees outside the five files: Arg::get_min_vals, the value parser, OsStrExt::split; the
+    model's own short-loop fuel). *)
+Theorem C01_model_sites_listed : forall c0 toks s,
+  do_parse c0 toks = OPanicked s -> In s (modelled_sites ++ callee_sites).
+Proof. exact model_sites_listed. Qed.
+Print Assumptions C01_model_sites_listed.
+
+(** ---------- round 2 (2): "the error can always be rendered" ----------
+    Errors/RenderModel.v models the error value (kind, message Raw | Formatted | none, ordered context of
+    (ContextKind, ContextValue), source, help flag), every constructor of error/mod.rs the parse path calls,
+    Error::render/formatted, RichFormatter::format_error, write_dynamic_context (panic sites visible: the
+    `as_str().unwrap()` of format.rs, the `others.pop().unwrap()` of mod.rs). *)
+
+(** rendering never panics -- for ANY error value (any kind, any context, any message), whatever
+    [<str as Debug>::fmt] (used by [Escape]) returns *)
+Theorem C01_render_total : forall (str_debug : bytes -> bytes) (e : rerror) s, render str_debug e <> Panic s.
+Proof. exact render_total. Qed.
+Print Assumptions C01_render_total.
+
+(** the two constructors that contain an [unwrap] never reach it *)
+Theorem C01_conflict_ctors_total : forall c x others usage,
+  (exists e, argument_conflict c x others usage = Done e) /\ (exists e, subcommand_conflict c x others usage = Done e).
+Proof. exact conflict_ctors_total. Qed.
+Print Assumptions C01_conflict_ctors_total.
+
+(** the tables behind the model are the source's today (Gen/ErrorCtx.v regenerated on every run): which kinds have
+    an [as_str] text, the ContextKind enum, per constructor the context kinds attached unconditionally / conditionally
+    in order, and "format.rs contains exactly one unwrap and no expect/index/unreachable; mod.rs the two `others.pop().unwrap()`;
+    kind.rs and context.rs none" -- the three sites are [Panic 175] and [Panic 276] of the model *)
+Theorem C01_error_tables_match :
+  List.map (fun k => (ekind_name k, is_some (kind_as_str k))) all_kinds = Gen.ErrorCtx.gen_kind_has_msg
+  /\ List.map ckind_name all_ckinds = Gen.ErrorCtx.gen_context_kinds
+  /\ model_ctor_ctx = Gen.ErrorCtx.gen_ctor_ctx
+  /\ Gen.ErrorCtx.gen_format_sites = [("write_dynamic_context", "unwrap", 0%N);
+                                      ("Error::argument_conflict", "unwrap", 0%N); ("Error::subcommand_conflict", "unwrap", 0%N)]%string.
+Proof. exact (conj kind_has_msg_match (conj context_kinds_match (conj ctor_ctx_match ctx_format_sites_match))). Qed.
+Print Assumptions C01_error_tables_match.
+
+(** the errors of the parse path have every kind except Io and Format -- for every definition (any class) *)
+Theorem C01_parser_error_kinds : forall c0 toks e,
+  do_parse c0 toks = OErr e -> e_kind e <> EIo /\ e_kind e <> EFormat.
+Proof. exact parser_error_kinds_ne. Qed.
+Print Assumptions C01_parser_error_kinds.
+
+(** MAIN (rendering).  For EVERY definition (valid or not, any class) and EVERY token list: if the parser model
+    returns an error [e], then [rich_alternatives e] -- the rich errors [e] stands for: per kind, each constructor
+    the parse path uses for that kind -- is non-empty, and each of them (1) is built by a modelled constructor,
+    (2) has the kind of [e] (or its jaro-dependent alternative), (3) renders without panic, (4) where a specific
+    message is expected (no pre-formatted message, kind other than InvalidUtf8) carries the context
+    [write_dynamic_context] asks for, so the specific message is produced. *)
+Theorem C01_renders : forall c0 toks e, do_parse c0 toks = OErr e ->
+  rich_alternatives e <> []
+  /\ forall r, In r (rich_alternatives e) ->
+       constructed r
+       /\ (r_kind r = e_kind e \/ Some (r_kind r) = e_alt e)
+       /\ (forall dbg s, render dbg r <> Panic s)
+       /\ (rich_expected r = true -> forall dbg, exists txt, write_dynamic_context dbg r = Done (true, txt)).
+Proof. exact parser_errors_render. Qed.
+Print Assumptions C01_renders.
+
+(** every constructed error (not only the placeholders of [rich_alternatives]) gets its specific message *)
+Theorem C01_constructed_rich : forall dbg e, constructed e -> rich_expected e = true ->
+  exists txt, write_dynamic_context dbg e = Done (true, txt).
+Proof. exact constructed_rich. Qed.
+Print Assumptions C01_constructed_rich.
+
+(** what the model driver of stream `errctx` prints (a literal table, extracted without the texts) is the signature
+    -- message form, ordered (context kind, value variant), specific message expected -- computed from the
+    constructor functions above; the run compares it with `Error::context()` / the message form / the rendered
+    text of the implementation's error on every generated case *)
+Theorem C01_signature_table : forall e, error_signature_table e = error_signature e.
+Proof. exact error_signature_table_ok. Qed.
+Print Assumptions C01_signature_table.
+
+(** ---------- round 2 (3): short flag-subcommands ----------
+    [C01_no_panic] stays stated for [plain].  The wider classes one would try are refuted by the faithful model
+    (each witness also panics the real crate, debug build, in debug_assert_eq!(advance_by(skip), Ok(()))): *)
+
+(** "every short-named argument consumes exactly one index per occurrence" does not suffice: [flag_subcmd_at] is
+    never cleared after `-Sx`, the next cluster `-Qy` of the child computes its skip from the stale value *)
+Theorem C01_no_panic_one_index_refuted :
+  valid stale_cmd = true /\ unplain_ok stale_cmd = true /\ one_index_flags stale_cmd = true
+  /\ parse_top stale_cmd [[112]; [45; 83; 120]; [45; 81; 121]] = OPanicked 920.
+Proof. exact stale_at_witness. Qed.
+Print Assumptions C01_no_panic_one_index_refuted.
+
+(** nor does "... and short flag-subcommands are not nested": a re-read cluster accepted as a hyphen value leaves
+    [flag_subcmd_skip] unconsumed (`p -Sz -\xff`) *)
+Theorem C01_no_panic_flat_refuted :
+  valid hyphen_cmd = true /\ unplain_ok hyphen_cmd = true /\ one_index_flags hyphen_cmd = true
+  /\ flat_flag_subs hyphen_cmd = true
+  /\ parse_top hyphen_cmd [[112]; [45; 83; 122]; [45; 255]] = OPanicked 920.
+Proof. exact unconsumed_skip_witness. Qed.
+Print Assumptions C01_no_panic_flat_refuted.
